@@ -32,6 +32,10 @@ let () =
           | "spec_hash" ->
             let intl = int_of_string (List.nth args 0) <> 0 and name = Zconv.bytes_of_hex (List.nth args 1) in
             Zconv.zs (Model.hash_name intl (Model.trunc30 (Zconv.zlist_of_ints name)))
+          | "output_name" ->
+            let d = List.nth args 0 and pa = List.nth args 1 and nm = List.nth args 2 in
+            let dir = if d = "-" then None else Some (Zconv.zlist_of_ints (Zconv.bytes_of_hex d)) in
+            Zconv.hex_of_bytes (List.map Zconv.int_of_z (Model.output_name dir (Zconv.zlist_of_ints (Zconv.bytes_of_hex pa)) (Zconv.zlist_of_ints (Zconv.bytes_of_hex nm))))
           | "adfGiveCurrentTime" -> "skip"
           | "bitidx" -> "skip"
           | _ ->
